@@ -77,7 +77,7 @@ Example C06_effect_lists :
                       (OpRefresh 0 false 5 [((0, 0), None, 1)] [])) in
   let wA := fst (step w0 (OpInitSend 1 None (mkParams 1000000000 false 5 1 500 2 true 0) false)) in
   let wL := fst (step wA (OpLock 1 0 5 true)) in
-  map (fun ew => eff_code (fst ew)) (op_effects w0 (OpReceive 7 5 0 None true)) = [0; 0; 0]%Z
+  map (fun ew => eff_code (fst ew)) (op_effects w0 (OpReceive 7 5 0 None true)) = [0; 0]%Z
   /\ map (fun ew => eff_code (fst ew)) (op_effects w0 (OpInitSend 1 None (mkParams 1000000000 false 5 1 500 2 true 0) false)) = [0; 0; 0]%Z
   /\ map (fun ew => eff_code (fst ew)) (op_effects wA (OpLock 1 0 5 true)) = [0; 1]%Z
   /\ map (fun ew => eff_code (fst ew)) (op_effects wL (OpFinalize 1 0 5 true true)) = [1; 0; 0]%Z.
